@@ -257,6 +257,14 @@ def decompressG2 (hi lo : Nat) : Except Err (Fp2 × Fp2) := decompressG2With sqr
 
 /-! ## Monitor -/
 
+/-- Buffer discipline (stated independently of the model): the functions are functions of the
+    byte content only and do not modify their input. The harness calls each of them on fresh
+    copies, twice on one buffer, and on a buffer reused for different content, and writes
+    `MUTATED-INPUT`, `ALIASED` or `NONDET` into the observation when that fails. -/
+def disciplineOk (obs : String) : Bool :=
+  (obs.splitOn "MUTATED-INPUT").length == 1 && (obs.splitOn "ALIASED").length == 1
+    && (obs.splitOn "NONDET").length == 1
+
 /-- What the implementation was observed to do on one case. -/
 inductive Obs
   | point1 (x y : Nat)            -- a G1 point (marshalled coordinates)
